@@ -3,7 +3,7 @@
    cancelled / purged". (That an accepted job does run is progress: C03; identity of ID and
    data is checked by the monitors and, for stored jobs, by C12.) Model coq/SliceJob.v. *)
 From Coq Require Import List Arith.
-From VQ Require Import SliceJob SliceJobProofs SliceWake SliceWakeProofs SlicePool SlicePoolProofs.
+From VQ Require Import SliceJob SliceJobProofs SliceWake SliceWakeProofs SlicePool SlicePoolProofs LList LListProofs.
 Import ListNotations.
 
 (* The worker function is entered at most once per job, in every schedule, with any number
@@ -42,6 +42,15 @@ Theorem C01_dispatched_job_finds_a_live_goroutine :
   forall s, PReachable s -> jobsq s = 1 -> alive s >= 1 /\ stopsq s = 0.
 Proof. exact job_finds_a_server. Qed.
 Print Assumptions C01_dispatched_job_finds_a_live_goroutine.
+
+(* The idle list (coq/LList.v, tied to internal/linkedlist by the differential test): a node the
+   dispatcher has popped is not in the list, so the Remove of the idle-worker reaper or of Stop —
+   working from an older snapshot — answers false for it and leaves it alone; Remove answers true
+   exactly for members and takes them out. *)
+Theorem C01_remove_is_the_ownership_transfer :
+  forall l x l', LLReachable l -> ll_popback l = (Some x, l') -> fst (ll_remove l' x) = false.
+Proof. exact remove_after_popback_false. Qed.
+Print Assumptions C01_remove_is_the_ownership_transfer.
 
 (* The worker function is entered only on a job that a dispatcher claimed after Dequeue handed
    it out: [EWfEnter] is enabled only in [LClaimed], which only a successful claim by the
